@@ -155,7 +155,7 @@ func c16Gen(c *Ctx) {
 		return a
 	}
 	// exhaustive small scope: all sequences of length <= L
-	L := c.N(2, 3)
+	L := c.N(3, 4)
 	for kind := int64(0); kind < 3; kind++ {
 		al := alpha(kind)
 		total := 1
@@ -192,7 +192,7 @@ func c16Gen(c *Ctx) {
 	c.SetExhaustive()
 	c.Note(fmt.Sprintf("exhaustive part: all op sequences of length <= %d over the boundary alphabet, each followed by Len+Iter, for the three types", L))
 	// random long sequences
-	n := c.N(3000, 60000)
+	n := c.N(20000, 300000)
 	c.Each(n, func(i int, t *T) {
 		r := t.R
 		kind := int64(i % 3)
